@@ -5,7 +5,7 @@ from common import *  # noqa
 import framework as fw
 from checks import c03
 
-MODULE = "LWV.Props.C07"
+MODULE = ["LWV.Props.C07", "LWV.Props.C07Any"]
 
 
 def check(ctx):
